@@ -319,6 +319,18 @@ func (f *Frame) specCall(st *State, e *ast.CallExpr, kind string) []*Term {
 			return []*Term{Select(Select(dom, tr), k)}
 		}
 		return []*Term{Select(Select(val, tr), k)}
+	case kind == "outLen":
+		h := c.heapGet(st, "OUT!len", ArrSort(SInt, SInt))
+		return []*Term{Select(h, IntLit(0))}
+	case kind == "outIsBytes":
+		return []*Term{Select(c.heapGet(st, "OUT!isbytes", ArrSort(SInt, SBool)), f.expr(st, e.Args[0]))}
+	case kind == "outBytes":
+		return []*Term{Select(c.heapGet(st, "OUT!bytes", ArrSort(SInt, SByt)), f.expr(st, e.Args[0]))}
+	case kind == "outObj":
+		return []*Term{Select(c.heapGet(st, "OUT!obj", ArrSort(SInt, SIfc)), f.expr(st, e.Args[0]))}
+	case kind == "byte1":
+		fn := c.declareFun("bytes1", []Sort{SInt}, SByt)
+		return []*Term{App(fn, SByt, f.expr(st, e.Args[0]))}
 	case kind == "rpcFails":
 		h := c.heapGet(st, "G!rpcFails", ArrSort(SInt, SInt))
 		return []*Term{Select(h, IntLit(0))}
@@ -1146,7 +1158,7 @@ func (f *Frame) checkFrame(st *State, entry *State, ct *Contract, ri int, where 
 		if !ok {
 			old = c.heapInit(h)
 		}
-		if same(cur, old) || h == "ALLOC" || strings.HasPrefix(h, "IT!") || strings.HasPrefix(h, "HS!") || strings.HasPrefix(h, "TX!") || h == "G!lastNow" || h == "G!lastRPCErr" || h == "G!rpcFails" || h == "G!called" || h == "G!lasterr" || strings.HasPrefix(h, "TAR!") || strings.HasPrefix(h, "SC!") {
+		if same(cur, old) || h == "ALLOC" || strings.HasPrefix(h, "IT!") || strings.HasPrefix(h, "HS!") || strings.HasPrefix(h, "TX!") || h == "G!lastNow" || h == "G!lastRPCErr" || h == "G!rpcFails" || strings.HasPrefix(h, "OUT!") || h == "G!called" || h == "G!lasterr" || strings.HasPrefix(h, "TAR!") || strings.HasPrefix(h, "SC!") {
 			continue
 		}
 		whole := false
